@@ -219,6 +219,7 @@ pub fn check(c: &NetCase) -> CheckResult {
                     let server = Server::new(router);
                     let l = server.listen(crate::util::lo0().as_str()).map_err(|e| Fail::new("harness-listen", e.to_string()))?;
                     let addr = l.local_addr().unwrap();
+                    crate::peers::net::stop_at_end_of_case(&l);
                     std::thread::spawn(move || {
                         let _ = server.serve(l);
                     });
